@@ -371,6 +371,46 @@ def item_exists_rule(v: str, holder_deprecated: bool) -> bool:
     return _agree(issues, expected)
 
 
+# ------------------------------------------------------------------------------------------ defaultUnits
+def _du_setup():
+    """real schema + real unit class entries (mini schema with the real 8.3.0 unit classes) and the reference table
+    read from the schema's MediaWiki text"""
+    if not _DU:
+        from vp.mini_units import MINI_U, WIKI
+        from models import units_ref
+        _DU.append((MINI_U, units_ref.Table(WIKI)))
+    return _DU[0]
+
+
+_DU = []
+_DU_CLASSES = ["timeUnits", "currencyUnits"]
+
+
+def default_units_rule(v: str, k: int) -> bool:
+    """
+    pre: len(v) <= R.N(3)
+    pre: _scell(v, ["s", "m", "$", "d"])
+    pre: R.ascii_printable(v)
+    pre: 0 <= k <= 1 and (R.env_int("VP_K") is None or k == R.env_int("VP_K"))
+    post: _
+    """
+    # defaultUnits of a unit class must be a unit OF THAT CLASS (a unit of another class, or no unit at all, is
+    # reported); an absent value is not checked
+    import copy
+    v = _solid(v)
+    schema, table = _du_setup()
+    entry = copy.copy(schema.unit_classes[_DU_CLASSES[k]])
+    entry.attributes = dict(entry.attributes)
+    entry.attributes[HedKey.DefaultUnits] = v
+    issues = V.unit_exists(schema, entry, HedKey.DefaultUnits)
+    if not isinstance(issues, list):
+        return False
+    own = table.match(_DU_CLASSES[k], v) is not None
+    if v == "" or own:
+        return [i for i in issues if i["code"] != "SCHEMA_ATTRIBUTE_VALUE_DEPRECATED"] == []
+    return "SCHEMA_ATTRIBUTE_VALUE_INVALID" in _codes(issues)
+
+
 # ------------------------------------------------------------------------------------------ hedId
 class _Prev:
     """previous released schema of one library: get_tag_entry(name, key_class) -> entry or None"""
@@ -621,6 +661,20 @@ HARNESSES = [
                             "_create_tag_entry/_add_to_dict with three short-named entries each",
                "vp/chx.py ASCII casefold"],
         outside="the 1200-tag tables of the bundled schemas; non-ASCII item names"),
+    R.H("default_units_rule", ["hed.schema.schema_attribute_validators.unit_exists",
+                               "hed.schema.hed_schema_entry.UnitClassEntry.get_derivative_unit_entry"],
+        quick=R.tier(cells=_cells(3, ["s", "m", "$", "d"], 1, split1_from=2, extra=R.int_cells("VP_K", 0, 1)),
+                     env={"VP_N": 3}, timeout=300,
+                     bound="defaultUnits value: every printable-ASCII text of <= 3 characters, on the unit classes "
+                           "timeUnits and currencyUnits of the mini schema (real 8.3.0 unit classes, 4 modifiers)"),
+        thorough=R.tier(cells=_cells(5, ["s", "m", "$", "d"], 1, split1_from=2, split2_from=4,
+                                     extra=R.int_cells("VP_K", 0, 1)), env={"VP_N": 5}, timeout=1500,
+                        bound="same with <= 5 characters"),
+        what="defaultUnits naming a unit of the class itself gives no issue; naming anything else - no unit at all, or "
+             "a unit that only belongs to ANOTHER class - gives SCHEMA_ATTRIBUTE_VALUE_INVALID",
+        oracle="models/units_ref.py Table.match over the MediaWiki text of the schema",
+        stubs=["real UnitClassEntry (shallow copy with its own attribute dict) of vp/mini_units.MINI_U"],
+        outside="the bundled schemas' full modifier tables; deprecation of the default unit"),
     R.H("hed_id_rule", ["hed.schema.schema_attribute_validator_hed_id.HedIDValidator.verify_tag_id",
                         "hed.schema.schema_io.df_util.remove_prefix"],
         quick=R.tier(cells=_cells(2, ["0", "1", "-", " "], 1, split1_from=2, extra=R.int_cells("VP_PREV", 0, 1)),
